@@ -3,6 +3,7 @@ T-B: histories of {create i, create duplicate, delete i, delete unknown, worker 
 worker in unknown context} through the REAL RemoteContext / PersistentRemoteWorker API against a real
 server, compared with Server/Model.v (replies and the set of registered ids)."""
 import logging
+import os
 import random
 import sys
 import time
@@ -133,6 +134,41 @@ def main(tier, seed, replay=None):
                 res.violation(dict(history=[list(o) for o in h]), v, observed=replies)
             terms.append(f'check_sessions [{"; ".join(sessions)}] [{"; ".join(replies)}] {"true" if alive else "false"} [{"; ".join(map(str, ids))}]')
             keep.append((h, replies, ids))
+        finally:
+            server.terminate(force=True)
+    # deleting a context whose workers have to be forced: the helper needs longer than the server is prepared to wait, is stopped
+    # by force in the middle of its clean-up - and still none of the context's workers may survive the delete
+    from pyworkers.remote_context import RemoteContext
+    from pyworkers.persistent_remote import PersistentRemoteWorker
+    from harness.props.c11 import bounded
+    for nstuck in ((6,) if tier == 'quick' else (4, 6, 8)):
+        server = st.start_server()
+        try:
+            c = RemoteContext(1, target=st.dig_in, host=server.addr)
+            ws = [PersistentRemoteWorker(None, host=server.addr, context=1) for _ in range(nstuck)]
+            for w in ws:
+                w.enqueue(1)
+            time.sleep(0.8)
+            pids = [w.pid for w in ws]
+            t0 = time.time()
+            r = bounded(c.wait, 40)
+            dur = time.time() - t0
+            deadline = time.time() + 4
+            left = pids
+            while time.time() < deadline and left:
+                left = [p for p in pids if p in st.descendants(1) or (os.path.exists(f'/proc/{p}') and open(f'/proc/{p}/stat').read().split()[2] != 'Z')]
+                time.sleep(0.2)
+            res.count('delete-with-stuck-workers'); res.case(('delete-stuck', nstuck), nontrivial=True,
+                                                             sample=dict(context_with_stuck_workers=nstuck, delete_answer=repr(r), answered_after_s=round(dur, 1), survivors=len(left)))
+            if r != ('ok', True):
+                res.violation(dict(delete_with_stuck_workers=nstuck), f'deleting a context with {nstuck} workers that have to be forced answered {r!r} after {dur:.1f} s')
+            elif left:
+                res.violation(dict(delete_with_stuck_workers=nstuck), f'{len(left)} of the {nstuck} workers of the deleted context are still running 4 s after the delete was answered (True)')
+            for p in left:
+                try:
+                    os.kill(p, 9)
+                except OSError:
+                    pass
         finally:
             server.terminate(force=True)
     bad, err = core.coq_eval_cases(PROP, HEADER, terms, per_file=50)
